@@ -169,7 +169,7 @@ def conditions(tier):
 
 
 META = {
-    "bounds": {"quick": "sets of <=4 distinct symbolic ints (optionally mixed with strs) under all permutations of the iteration order; 6 data shapes under 3 formatter configurations",
+    "bounds": {"quick": "sets of <=4 distinct symbolic ints (optionally mixed with strs) under all permutations of the iteration order; 12 data shapes (6 with concrete string/bytes leaves) under 3 formatter configurations",
                "thorough": "sets of <=5 elements"},
     "outside": "real different interpreter processes are only the contract-validation item; dict iteration order is insertion order by the language (the written order is the value's own order)",
     "assumptions": ["an arbitrary hash seed is modelled as an arbitrary iteration order of the set (the code only iterates)",
